@@ -22,7 +22,8 @@ R_NAMES = {0: "safe", 1: "ChildrenList.pop/index-arithmetic", 2: "ChildrenList._
            3: "ChildrenList.insert/negative-index", 4: "ChildrenList.insert/index-beyond-end",
            5: "ChildrenList.__setitem__/index-arithmetic", 6: "ChildrenList.extend/duplicate-item",
            7: "ChildrenList.remove/equal-but-not-identical", 8: "Node.children-setter/fails-after-popping",
-           9: "ChildrenList._check_is_orphan/ancestor-accepted", 10: "update_signal/recursion-depth"}
+           9: "ChildrenList._check_is_orphan/ancestor-accepted", 10: "update_signal/recursion-depth",
+           11: "ChildrenList.__iadd__/not-overridden", 12: "ChildrenList.__imul__/not-overridden"}
 # which parameter text makes a finding key specific to the code as written
 R_TEXT = {1: "ie_pop", 2: "ie_del", 3: "ie_insert", 4: "ie_insert", 5: "ie_set"}
 
@@ -188,6 +189,18 @@ def apply_real(pool, op):
             nd[op[1]].pop_all_children()
         elif name == "set_children":
             nd[op[1]].children = [nd[i] for i in op[2]]
+        elif name == "iadd":
+            alias = nd[op[1]].children
+            alias += [nd[i] for i in op[2]]
+        elif name == "imul":
+            alias = nd[op[1]].children
+            alias *= op[2]
+        elif name == "getslice":
+            nd[op[1]].children[op[2]:op[3]:op[4]]
+        elif name == "setslice":
+            nd[op[1]].children[op[2]:op[3]] = [nd[i] for i in op[4]]
+        elif name == "delslice":
+            del nd[op[1]].children[op[2]:op[3]]
         else:
             raise AssertionError(name)
         return 0
@@ -342,6 +355,16 @@ class Mirror:
             if p is None or op[1] not in self.kids[p]:
                 return 0
             return self.reason(("setitem", p, self.kids[p].index(op[1]), op[2]))
+        if name == "iadd":
+            if P.get("f_iadd"):
+                return self.extend_reason(op[1], op[2])
+            return 11 if op[2] else 0
+        if name == "imul":
+            if P.get("f_imul"):
+                return 0
+            return 0 if (op[2] == 1 or not self.kids[op[1]]) else 12
+        if name in ("getslice", "setslice", "delslice"):
+            return 0
         if name == "set_children":
             return None          # needs the outcome: computed by the caller (set_children_reason)
         raise AssertionError(name)
@@ -408,6 +431,21 @@ def coq_op(op):
     raise AssertionError(n)
 
 
+def coq_op2(op):
+    n = op[0]
+    if n == "iadd":
+        return "OIAdd %d %s" % (op[1], coq_nats(op[2]))
+    if n == "imul":
+        return "OIMul %d %s" % (op[1], core.coq_z(op[2]))
+    if n == "getslice":
+        return "OGetSlice %d" % op[1]
+    if n == "setslice":
+        return "OSetSlice %d %s" % (op[1], coq_nats(op[4]))
+    if n == "delslice":
+        return "ODelSlice %d" % op[1]
+    return "OBase (%s)" % coq_op(op)
+
+
 def coq_table(entries):
     return "[" + "; ".join("(%d, (%s, %s))" % (i, coq_opt(p), coq_nats(k)) for i, (p, k) in entries) + "]"
 
@@ -415,10 +453,10 @@ def coq_table(entries):
 def coq_case(rec):
     kinds = "[" + "; ".join("(%d, (K%s, %d))" % (i, k, a) for i, (k, a) in enumerate(rec["kinds"])) + "]"
     steps = "[" + ";\n   ".join(
-        "mkObs (%s) %d %s %s %d" % (coq_op(s["op"]), s["err"], coq_table(s["diff"]),
+        "mkObs2 (%s) %d %s %s %d" % (coq_op2(s["op"]), s["err"], coq_table(s["diff"]),
                                     "true" if s["inv"] is None else "false", s["reason"])
         for s in rec["steps"]) + "]"
-    return "mkCase %s\n  %s\n  %s" % (kinds, coq_table(list(enumerate(rec["init"]))), steps)
+    return "mkCase2 %s\n  %s\n  %s" % (kinds, coq_table(list(enumerate(rec["init"]))), steps)
 
 
 # ---------------------------------------------------------------- running one history
@@ -465,7 +503,8 @@ KIND_WEIGHTS = [("Schedule", 5), ("Loop", 4), ("IfBlock", 3), ("WhileLoop", 1), 
                 ("OMPReductionClause", 1), ("OMPNowaitClause", 1)]
 OPS_W = [("append", 8), ("insert", 12), ("setitem", 8), ("delitem", 6), ("remove", 6), ("pop", 10), ("poplast", 3),
          ("extend", 6), ("clear", 1), ("reverse", 3), ("sort", 1), ("addchild", 6), ("detach", 5),
-         ("replace_with", 6), ("pop_all", 1), ("set_children", 5)]
+         ("replace_with", 6), ("pop_all", 1), ("set_children", 5), ("iadd", 2), ("imul", 1), ("getslice", 1),
+         ("setslice", 2), ("delslice", 2)]
 
 
 def wchoice(rng, pairs):
@@ -597,6 +636,16 @@ def random_op(rng, pool, snap, focus=None):
             p = snap[x][0]
             return ("replace_with", x, item(p, snap[p][1].index(x) if x in snap[p][1] else None))
         return ("replace_with", rng.randrange(n), rng.randrange(n))
+    if name == "iadd":
+        # a non-empty `+=` is the (history-ending) open finding: mostly the harmless empty list
+        return ("iadd", c, [] if rng.random() < 0.7 else [item(c, ln)])
+    if name == "imul":
+        return ("imul", c, 1 if rng.random() < 0.7 else rng.choice([0, 2, -1, 3]))
+    if name in ("getslice", "delslice"):
+        a, b = index(ln), index(ln)
+        return (name, c, a, b, rng.choice([None, 1, 2, -1])) if name == "getslice" else (name, c, a, b)
+    if name == "setslice":
+        return ("setslice", c, index(ln), index(ln), [item(c, ln) for _ in range(rng.choice([0, 1, 2]))])
     if name == "set_children":
         cur = list(snap[c][1])
         r = rng.random()
@@ -689,6 +738,12 @@ def targeted():
                 [("extend", 0, [1, 2]), ("append", 2, 0)]))
     out.append(("append-self", [("ArrayReference", 0)], [("append", 0, 0)]))
     out.append(("replace-routine-of-argless-call", [("Call", 0), R, R], [("append", 0, 1), ("replace_with", 1, 2)]))
+    out.append(("iadd-alias", [("Schedule", 0), ("Return", 0)], [("iadd", 0, [1])]))
+    out.append(("imul-alias", [("Schedule", 0), ("Return", 0)], [("append", 0, 1), ("imul", 0, 2)]))
+    out.append(("imul-zero", [("Schedule", 0), ("Return", 0)], [("append", 0, 1), ("imul", 0, 0)]))
+    out.append(("slices-refused", [("Schedule", 0), ("Return", 0), ("Return", 0), ("Return", 0)],
+                [("extend", 0, [1, 2]), ("setslice", 0, 0, 1, [3]), ("delslice", 0, 0, 2), ("getslice", 0, None, None, 2),
+                 ("iadd", 0, []), ("imul", 0, 1)]))
     out.append(("setter-permutes", [("Schedule", 0), ("Return", 0), ("Assignment", 0)],
                 [("extend", 0, [1, 2]), ("set_children", 0, [2, 1]), ("reverse", 0), ("clear", 0)]))
     out.append(("ifblock-reverse", [("IfBlock", 0), L, ("Schedule", 0), ("Schedule", 0)],
@@ -750,9 +805,10 @@ def run(ctx):
         ctx.notes["validate_child_grid_points_cross_checked"] = T["grid_checked"]
         ok, rep = ctx.prove()
         ctx.log("proof ok=%s discharged=%d/%d" % (ok, ctx.cov["discharged"], ctx.cov["obligations"]))
-    header = "From Coq Require Import ZArith.\nFrom PV Require Import C14.Model C14.Gen."
+    header = "From Coq Require Import ZArith.\nFrom PV Require Import C14.Model C14.Model2 C14.Gen."
     if T and ok:
-        shown = ctx.coq_eval_show(header, ["params_eqb P_src P_found", "P_okb P_src"])
+        shown = ctx.coq_eval_show(header, ["params_eqb P_src P_found", "P_okb P_src", "P2_okb P2_src"])
+        ctx.notes["full_theorem_applies_incl_inplace_operators"] = shown[2].split(":")[0].strip().lstrip("= ").strip()
         ctx.notes["source_is_as_found"] = shown[0].split(":")[0].strip().lstrip("= ").strip()
         ctx.notes["full_theorem_applies_to_source"] = shown[1].split(":")[0].strip().lstrip("= ").strip()
         ctx.log("P_src = P_found: %s ; P_okb P_src: %s" % (ctx.notes["source_is_as_found"],
@@ -761,7 +817,7 @@ def run(ctx):
     # search for a concrete failing input still runs
     if P is None:
         P = {"ie_insert": ("if", "CGe", ("idx",), ("const", 0), ("idx",), ("sub", ("len",), ("idx",))),
-             "ie_set": ("idx",), "f_extend_dup": False, "f_remove_unlink": False, "f_setter_atomic": False,
+             "ie_set": ("idx",), "f_iadd": False, "f_imul": False, "f_extend_dup": False, "f_remove_unlink": False, "f_setter_atomic": False,
              "f_cycle_check": False}
         P["ie_pop"] = P["ie_del"] = P["ie_insert"]
         found = "index if index >= 0 else len(self) - index"
@@ -818,7 +874,7 @@ def run(ctx):
     failing = []
     if T and ok:
         cases = [coq_case(r) for r in recs]
-        failing = ctx.coq_eval_failing(header, "case", "case_ok P_src valid_child argn_src", cases, shard=120)
+        failing = ctx.coq_eval_failing(header, "case2", "case2_ok P2_src valid_child argn_src", cases, shard=120)
     ctx.cov["disagreements_checked"] = len(failing)
     nfail = sum(1 for r in recs if r["fail"])
     ctx.log("histories=%d steps=%d model/impl disagreements=%d property failures on the real tree=%d"
@@ -884,7 +940,7 @@ def run(ctx):
                           no_input=True)
         elif failing:
             i = failing[0]
-            shown = ctx.coq_eval_show(header, ["case_first_bad P_src valid_child argn_src (%s)" % coq_case(recs[i])])
+            shown = ctx.coq_eval_show(header, ["case2_first_bad P2_src valid_child argn_src (%s)" % coq_case(recs[i])])
             ctx.violation({"property": "C14", "broken": "correspondence Model.step = ChildrenList/Node operations",
                            "first_differing_case": replay_of(recs[i], {}), "first_bad_step(1-based)": shown,
                            "steps": [{"op": list(s["op"]), "err": s["err"], "diff": s["diff"], "reason": s["reason"]}
